@@ -125,6 +125,13 @@ def scenarios(tier: str) -> List[Dict[str, Any]]:
         for n1, n2 in itertools.product(pair_names, repeat=2):
             for ack in ("sync", "async"):
                 out.append(_sc(at, [_msg(n1, ack, True), _msg(n2, ack, True)], 0, False))
+    # a worker that recycles after N messages: the last accepted message is acknowledged once like any other
+    for at in ACK_TYPES[:3]:
+        for n_ in (1, 2):
+            for nm in ("return", "raise"):
+                sc = _sc(at, [_msg(nm, "sync", False), _msg("return", "async", True), _msg("return", "sync", False)], 0, False, a=2)
+                sc.update({"stream": "infinite", "stop": False, "N": n_, "P": 1})
+                out.append(sc)
     if tier == "thorough":
         for at in ACK_TYPES[:3]:
             for n1, n2 in itertools.product(names[:4], repeat=2):
